@@ -3,6 +3,7 @@ package main
 import (
 	"fmt"
 	"go/types"
+	"math/big"
 	"strings"
 )
 
@@ -58,6 +59,9 @@ func qualName(n *types.Named) string {
 }
 
 var repoPrefix = "worldcoin/gnark-mbu"
+
+// maxSliceLen: no Go slice with elements of non-zero size is longer than maxAlloc = 2^48 bytes on 64-bit platforms
+var maxSliceLen = BigLit(new(big.Int).Lsh(big.NewInt(1), 48))
 
 func kindOf(t types.Type) *Kind {
 	if t == nil {
